@@ -83,6 +83,11 @@ def _child(conn, modname, hname, case, mode, payload):
     except BaseException:
         conn.send({'status': 'error', 'error': traceback.format_exc()})
     finally:
+        try:
+            from harness import common as _c
+            _c.cleanup_sandbox()
+        except BaseException:
+            pass
         conn.close()
         os._exit(0)
 
